@@ -208,6 +208,30 @@ def handleGroup (trait rpc strat : String) (behs : List Beh) (order : List Nat) 
     else tr
   pure (showTrace n out tr inv)
 
+/-! ## the subscription loop: `pull <trait> <n> <events>`
+
+events: `,`-separated `i:v1.v2…` (member `i` delivers a message with the value codes `v1 v2 …`; `i:` = a
+message without changes; `-` = no events).  Answer: `fwd=` the values forwarded, in order. -/
+
+def parseEvent? (s : String) : Option (Nat × List Nat) :=
+  match s.splitOn ":" with
+  | [i, vs] => do
+    let i ← parseNat? i
+    let vs ← if vs = "" then some [] else (vs.splitOn ".").mapM parseNat?
+    pure (i, vs)
+  | _ => none
+
+def handlePull (trait : String) (n : Nat) (evs : List (Nat × List Nat)) : Option String :=
+  let shown : Option (List String) := match trait with
+    | "light" =>
+      some ((pullRun lightReduceChanges n (evs.map fun ev => (ev.1, ev.2.map levelOf))).sent.map
+        fun v => (v.map showRat).getD "nil")
+    | "onoff" =>
+      some ((pullRun onoffReduceChanges n (evs.map fun ev => (ev.1, ev.2.map onoffOf))).sent.map
+        fun v => (v.map showOnOff).getD "nil")
+    | _ => none
+  shown.map fun xs => "fwd=" ++ dash (",".intercalate xs)
+
 def isPerm (order : List Nat) (n : Nat) : Bool :=
   order.length == n && (List.range n).all fun i => order.contains i
 
@@ -235,6 +259,13 @@ def handle (toks : List String) : String :=
       if behs.length ≠ n || !isPerm order n then none
       if rpc = "Pull" && vals.length ≠ n then none
       handleGroup trait rpc strat behs order pc vals
+    r.getD "!bad-op"
+  | ["pull", trait, n, evs] =>
+    let r : Option String := do
+      let n ← parseNat? n
+      let evs ← parseList? parseEvent? evs
+      if evs.any (fun ev => ev.1 ≥ n) then none
+      handlePull trait n evs
     r.getD "!bad-op"
   | _ => "!bad-op"
 
